@@ -47,9 +47,9 @@ func (fr *Frame) exec(ins ssa.Instruction) bool {
 		fr.vals[n] = t.tuple[n.Index]
 	case *ssa.FieldAddr:
 		x := fr.val(n.X)
-		fr.safety("nil-deref", n.Pos(), b.Not(b.IsNil(x.t)))
 		st := n.X.Type().Underlying().(*types.Pointer).Elem()
 		si := w.structInfo(st)
+		fr.safety("nil-deref:"+si.Fields[n.Field].Name, n.Pos(), b.Not(b.IsNil(x.t)))
 		fr.vals[n] = Val{t: b.Fld(x.t, si.Fields[n.Field].FID), typ: n.Type()}
 	case *ssa.Field:
 		x := fr.val(n.X)
@@ -116,7 +116,7 @@ func (fr *Frame) exec(ins ssa.Instruction) bool {
 	case *ssa.Store:
 		addr := fr.val(n.Addr)
 		v := fr.val(n.Val)
-		fr.safety("nil-deref", n.Pos(), b.Not(b.IsNil(addr.t)))
+		fr.safety("nil-deref:store", n.Pos(), b.Not(b.IsNil(addr.t)))
 		fr.cx.store(fr.st, addr.t, n.Val.Type(), v.t)
 		if v.fn != nil {
 			fr.cx.noteFuncStore(addr.t, v.fn)
@@ -362,7 +362,7 @@ func (fr *Frame) unop(n *ssa.UnOp) Val {
 	x := fr.val(n.X)
 	switch n.Op {
 	case token.MUL: // load
-		fr.safety("nil-deref", n.Pos(), b.Not(b.IsNil(x.t)))
+		fr.safety("nil-deref:load", n.Pos(), b.Not(b.IsNil(x.t)))
 		v := fr.cx.load(fr.st, x.t, n.Type())
 		r := Val{t: b.Name(n.Name(), v), typ: n.Type()}
 		if r.t.sort == SFunc {
